@@ -270,7 +270,37 @@ func (p *Program) resolveAnchors() {
 		}
 		var pick *types.Var
 		how := ""
+		if len(cands) == 0 {
+			// moved into a struct of its own: the only field of that type among the fields of the struct-typed fields of T
+			// (one level down, same package) — `cache batchCache` with `m map[…]…` for the former `messagesCache`
+			var nested []*types.Var
+			via := ""
+			for _, fv := range p.structFields(parts[0], parts[1]) {
+				t := fv.Type()
+				if pt, ok := t.(*types.Pointer); ok {
+					t = pt.Elem()
+				}
+				n, ok := t.(*types.Named)
+				if !ok || n.Obj().Pkg() == nil || ShortPkg(n.Obj().Pkg().Path()) != parts[0] {
+					continue
+				}
+				st, ok := n.Underlying().(*types.Struct)
+				if !ok {
+					continue
+				}
+				for k := 0; k < st.NumFields(); k++ {
+					if f := st.Field(k); !takenF[f] && typeStr(f.Type()) == a.Type {
+						nested = append(nested, f)
+						via = fv.Name() + " " + n.Obj().Name()
+					}
+				}
+			}
+			if len(nested) == 1 {
+				pick, how = nested[0], "the only field of that type in the nested struct "+via
+			}
+		}
 		switch {
+		case pick != nil:
 		case len(cands) == 1:
 			pick, how = cands[0], "the only other field of that type"
 		case len(cands) > 1:
@@ -296,7 +326,7 @@ func (p *Program) resolveAnchors() {
 		}
 		takenF[pick] = true
 		p.fieldAlias[key] = pick
-		p.AnchorNotes = append(p.AnchorNotes, fmt.Sprintf("field %s is not in the tree; %s.%s.%s (%s) is analysed in its place", key, parts[0], parts[1], pick.Name(), how))
+		p.AnchorNotes = append(p.AnchorNotes, fmt.Sprintf("field %s is not in the tree; field %s (%s) is analysed in its place", key, pick.Name(), how))
 	}
 }
 
@@ -369,6 +399,20 @@ func (p *Program) FieldName(fv *types.Var) string {
 }
 
 var simpleNameRe = regexp.MustCompile("[\"`]([A-Za-z_][A-Za-z0-9_]*)[\"`]")
+
+// FieldOwner is the struct type name the rules know a field under when it was re-identified (possibly in a nested struct
+// it was moved into), or "" for a field that was found where the rules expect it.
+func (p *Program) FieldOwner(fv *types.Var) string {
+	for key, v := range p.fieldAlias {
+		if v == fv {
+			parts := strings.Split(key, ".")
+			if len(parts) == 3 {
+				return parts[1]
+			}
+		}
+	}
+	return ""
+}
 
 // IsNamed reports whether a function's simple name occurs as a string literal in the rules.
 func (p *Program) IsNamed(simple string) bool {
